@@ -128,7 +128,7 @@ ExpArgsUnexp(args, i, f, ea, st, X) ==
   IF i > Len(args) THEN R(<<>>, st)
   ELSE LET a == args[i]
            rk == IF a.named THEN Exp(a.key, f, ea, st, X) ELSE R(<<>>, st)
-           rv == Exp(a.val, f, ea, rk.st, X)
+           rv == Exp(ArgSrcDrop(a.val, f, X.Dev), f, ea, rk.st, X)
            rest == ExpArgsUnexp(args, i + 1, f, ea, rv.st, X)
        IN R(<<"|">> \o (IF a.named THEN rk.out \o <<"=">> ELSE <<>>) \o rv.out \o rest.out, rest.st)
 
@@ -149,7 +149,7 @@ BindArgs(args, i, pos, f, st, X, acc) ==
                 val == IF "NamedValueTrimmedBeforeExpansion" \in X.Dev THEN rv.out ELSE Trim(rv.out)
             IN BindArgs(args, i + 1, pos, f, Pop(rv.st), X, Append(acc, [key |-> rk.out, val |-> val]))
        ELSE LET s2 == Push(st, ArgvalLbl)
-                rv == Exp(a.val, f, TRUE, s2, X)
+                rv == Exp(ArgSrcDrop(a.val, f, X.Dev), f, TRUE, s2, X)
             IN BindArgs(args, i + 1, pos + 1, f, Pop(rv.st), X,
                         Append(acc, [key |-> <<NumAtoms[pos]>>, val |-> rv.out]))
 
@@ -202,7 +202,7 @@ ExpItem(it, f, ea, st, X) ==
                             THEN R(Src(it.def), Pop(s3))
                             ELSE LET e == Exp(it.def, f, ea, s3, X) IN R(e.out, Pop(e.st))
                     ELSE R(<<"{{{">> \o key \o <<"}}}">>, Pop(s2))
-            ELSE IF HasKey(f, key) THEN R(ValueOf(f, key), s1)
+            ELSE IF HasKey(f, key) THEN R(ParamValue(f, key, X.Dev), s1)
             ELSE IF it.hasDef
                  THEN LET s3 == Pop(Push(s1, Lbl("ARG-DEFVAL")))
                       IN Exp(it.def, f, ea, s3, X)
@@ -214,7 +214,7 @@ ExpItem(it, f, ea, st, X) ==
              s1 == Pop(e.st)
              key == Trim(e.out)
              Fin(s) == IF f.top THEN Pop(s) ELSE s
-         IN IF ~f.top /\ HasKey(f, key) THEN R(ValueOf(f, key), s1)
+         IN IF ~f.top /\ HasKey(f, key) THEN R(ParamValue(f, key, X.Dev), s1)
             ELSE IF it.hasDef
                  THEN LET s3 == Pop(Push(s1, Lbl("ARG-DEFVAL")))
                           d == Exp(it.def, f, ea, s3, X)
